@@ -293,4 +293,9 @@ theorem batch_finalize_unbatch (cfg : Cfg) (k : Nat) (s : List Inter) (S' : Stat
     (primsHypB cfg (expandStep .finalize) s = true → alignedStreamB s s = true → alignedStreamB s S'.stream = true) :=
   batch_finalize_unbatch' cfg k s S' h
 
+/-- Harden (inside Finalize) turns *every* action of a not materialised dense action list into a list: a plain
+tuple next to SparseDense rows stops being the value its reward function is keyed on -/
+theorem harden_mixed_counterexample : keepsAligned Cfg.asIs [.finalize] wHardenMixed = false := by decide +kernel
+example : keepsAligned Cfg.fixed [.finalize] wHardenMixed = true := by decide +kernel
+
 end Coba.C10
